@@ -103,7 +103,7 @@ theorem posR_rmv {l1 l2 : List Nat} {n t : Nat} (hnd : (l1 ++ n :: l2).Nodup)
         rw [e1, e2]; split <;> omega
 
 theorem posF_ins {l1 l2 : List Nat} {m t : Nat} (hm : m ∉ l1 ++ l2) (hm0 : m ≠ 0)
-    (h0 : 0 ∉ l1 ++ l2) (ht : t = 0 ∨ t ∈ l1 ++ l2) :
+    (_h0 : 0 ∉ l1 ++ l2) (ht : t = 0 ∨ t ∈ l1 ++ l2) :
     posF (l1 ++ m :: l2) t =
       if l1.length ≤ posF (l1 ++ l2) t then posF (l1 ++ l2) t + 1 else posF (l1 ++ l2) t := by
   unfold posF
